@@ -146,6 +146,12 @@ func (u *Upstream) Close(ctx context.Context, opts ...UpstreamCloseOption) error
 }
 
 func (u *Upstream) closeWithError(ctx context.Context, causeError error, opts ...UpstreamCloseOption) error {
+	return u.closeWithState(ctx, u.State(), causeError, opts...)
+}
+
+// closeWithState is closeWithError for callers that already hold the stream lock and pass the
+// state they read under it.
+func (u *Upstream) closeWithState(ctx context.Context, state *UpstreamState, causeError error, opts ...UpstreamCloseOption) error {
 	defer u.cancel()
 	if u.isClosed() {
 		return nil
@@ -156,7 +162,6 @@ func (u *Upstream) closeWithError(ctx context.Context, causeError error, opts ..
 		v(&opt)
 	}
 
-	state := u.stateWithoutLock()
 	resp, err := u.wireConn.SendUpstreamCloseRequest(ctx, &message.UpstreamCloseRequest{
 		StreamID:            u.ID,
 		TotalDataPoints:     state.TotalDataPoints,
@@ -459,7 +464,7 @@ func (u *Upstream) flush(ctx context.Context) error {
 	}
 
 	if err := u.validateState(); err != nil {
-		u.closeWithError(u.ctx, err)
+		u.closeWithState(u.ctx, u.stateWithoutLock(), err)
 		return err
 	}
 
